@@ -274,7 +274,15 @@ Next ==
              /\ LET shown == { e.hits[i] : i \in 1..Len(e.hits) }
                     pw == IF o.pend /\ ScopeIdx(o.req.c) > 0 THEN PwOfReq(Get(o.t, << o.req.c, o.req.sid >>, T0), o.req.hdr, o.req.b) ELSE <<>>
                     keys == { cfg.secrets[k].key : k \in 1..Len(cfg.secrets) }
-                    new == Tags({ << pw # <<>> /\ pw \in shown, "C18" >>, << shown \cap keys # {}, "C18" >> })
+                    \* fields of the same login the server logs as what they are (user name, port, remote address): a client that
+                    \* types its password at the user-name prompt has put those octets there itself - showing the user name
+                    \* is not showing the password
+                    tt == Get(o.t, << o.req.c, o.req.sid >>, T0)
+                    plain == IF ~(o.pend /\ ScopeIdx(o.req.c) > 0) THEN {}
+                             ELSE IF tt.stage = "asked_pass" THEN { tt.user }
+                             ELSE IF DecAuthenStart(o.req.b).ok THEN { DecAuthenStart(o.req.b).v.user, DecAuthenStart(o.req.b).v.port, DecAuthenStart(o.req.b).v.raddr }
+                             ELSE {}
+                    new == Tags({ << pw # <<>> /\ pw \in shown /\ pw \notin plain, "C18" >>, << shown \cap keys # {}, "C18" >> })
                 IN o' = [o EXCEPT !.bad = @ \cup new] /\ (IF new = {} THEN TRUE ELSE PrintT(<< "PV", new, sc, l, "log" >>))
              /\ UNCHANGED << sc, cfg, conns, ms, div >>
         [] e.e = "panic" ->
